@@ -375,6 +375,10 @@ func runC10(c *Ctx) {
 				sc.failAt = sc.replies
 			}
 		}
+		if i == 71 { // the bidi call with the 4 MiB first message: the backend fails before it reads anything,
+			// so the forwarder's first SendMsg finds the call already ended (grpc-go: io.EOF, status via RecvMsg)
+			nmsg, sc.code, sc.failAt, sc.replies = 2, codes.FailedPrecondition, -1, 0
+		}
 		keepOpen, mode := false, 0
 		if sh.cs && nmsg >= 1 && sc.code != codes.OK && c.Rng.Intn(3) == 0 {
 			sc.eager, keepOpen, mode = true, true, 1 // the backend fails early; the client keeps its side open and waits
